@@ -16,7 +16,9 @@ THEOREMS = [
     'AbacusVerif.Blsc.feed_invariant',
     'AbacusVerif.Blsc.decompress_chunking_independent',
     'AbacusVerif.Blsc.decompress_same_for_all_chunkings',
+    'AbacusVerif.Blsc.bytesOut_sum',
     'AbacusVerif.Blsc.compress_decompress_id',
+    'AbacusVerif.Blsc.compress_zero_step',
     'AbacusVerif.Blsc.truncated_stream_detected',
 ]
 DRIVER = 'drv_c14'
@@ -38,6 +40,18 @@ ASSUMPTIONS = [
 ]
 
 GUARD = 32
+MAX_REPORTS = 40
+
+
+class Enough(Exception):
+    """the verdict is settled (many failing inputs already found): stop exploring, a broken implementation
+    may also be arbitrarily slow on the larger streams"""
+
+
+def enough(ctx):
+    if len(ctx.failures) >= MAX_REPORTS or len(ctx.disagreements) >= 10 * MAX_REPORTS:
+        raise Enough()
+
 XOR = bytes(b ^ 0xA5 for b in range(256))
 
 
@@ -260,6 +274,7 @@ def check_case(ctx, label, stream, sizes, tag, mres, sp, conv, wellformed):
     if case['stream'] is None or case['sizes'] is None:
         case['note'] = 'large case: regenerate with the same seed/tier'
     ctx.case(case, nontrivial=len(stream) > 0, key=(stream.hex() if len(stream) <= 64 else hash(stream), rle(sizes)))
+    enough(ctx)
     ctx.count('family:' + label)
     ctx.count('chunks:' + ('0' if not sizes else '1' if len(sizes) == 1 else '2-8' if len(sizes) <= 8 else '9+'))
     if 0 in sizes:
@@ -638,20 +653,25 @@ def run_corpus(ctx):
 
 def run(ctx):
     import abacusnbody.data.asdf  # noqa: F401  (the module under test; registers the blsc compressor)
-    with ToyCodec():
-        run_corpus(ctx)
-        run_boundary(ctx)
-        run_exhaustive(ctx)
-        run_random(ctx)
-        run_compress(ctx)
-        run_end_to_end(ctx, 'toy')
-    run_end_to_end(ctx, 'standin')
+    try:
+        with ToyCodec():
+            run_corpus(ctx)
+            run_boundary(ctx)
+            run_exhaustive(ctx)
+            run_random(ctx)
+            run_compress(ctx)
+            run_end_to_end(ctx, 'toy')
+        run_end_to_end(ctx, 'standin')
+    except Enough:
+        ctx.count('stopped-early')
 
 
 def intensify(ctx):
     """a proof or the correspondence broke: look harder for a (stream, chunking) on which the real code is wrong"""
     import abacusnbody.data.asdf  # noqa: F401
     rng = ctx.rng
+    if len(ctx.failures) >= MAX_REPORTS:
+        return
     with ToyCodec():
         b = Batch(ctx, 'intensify', model=not ctx.driver.error)
         for _ in range(400):
